@@ -462,6 +462,12 @@ class PoolRun:
                  "TaskNotFound": "InvalidTaskID"}.get(n, n)
             return ("err", n)
 
+    def _msg_kw(self):
+        """The optional `msg` of cancel / cancel_group / cancel_all is passed by every other
+        cancellation (it only decorates the CancelledError; nothing observable depends on it)."""
+        self.n_cancel_ops = getattr(self, "n_cancel_ops", 0) + 1
+        return {"msg": f"cancelled by op {self.n_cancel_ops}"} if self.n_cancel_ops % 2 else {}
+
     def _spawn_result(self, r):
         if r[0] == "ok":
             g = str_to_gname(r[1])
@@ -525,14 +531,14 @@ class PoolRun:
             self._spawn_result(self._call(p.start, int(kv["num"])))
         elif op == "cancel":
             ids = [] if kv["ids"] == "-" else [int(x) for x in kv["ids"].split(",")]
-            r = self._call(p.cancel, *ids)
+            r = self._call(p.cancel, *ids, **self._msg_kw())
             self.res = "none" if r[0] == "ok" else f"err:{r[1]}"
         elif op == "cancelgroup":
             self._know(kv["g"])
-            r = self._call(p.cancel_group, gname_to_str(kv["g"]))
+            r = self._call(p.cancel_group, gname_to_str(kv["g"]), **self._msg_kw())
             self.res = "none" if r[0] == "ok" else f"err:{r[1]}"
         elif op == "cancelall":
-            r = self._call(p.cancel_all)
+            r = self._call(p.cancel_all, **self._msg_kw())
             self.res = "none" if r[0] == "ok" else f"err:{r[1]}"
         elif op == "stop":
             n = -1 if kv["n"] == "neg" else int(kv["n"])
